@@ -5,6 +5,8 @@ CONSTANTS
   Deps <- DepsC
   Roots <- RootsC
   SubscribeLate = FALSE
+  MaxAbandon = 0
+  SilentAbandon = FALSE
 INVARIANT Emit
 INVARIANT SingleFlight
 INVARIANT OncePerEpoch
